@@ -556,7 +556,7 @@ func (fr *frame) valueToStr(v Value, verb byte) Str {
 			return Str{S: "%!" + string(verb) + "(<nil>)"}
 		}
 		if verb == 'T' {
-			return Str{S: v.T.String()}
+			return Str{S: types.TypeString(v.T, func(p *types.Package) string { return p.Name() })}
 		}
 		if verb != 'd' && verb != 'x' && verb != 'c' && verb != 'p' && verb != 't' {
 			// error / Stringer
@@ -827,7 +827,7 @@ func extMutexLock(fr *frame, a []Value) Value {
 		fr.p.yield("Mutex.Lock")
 	}
 	fr.p.blockUntil(func() bool { return m[0].(*Term).C == 0 }, "Mutex.Lock")
-	m[0] = fr.w.tt.BVC(32, 1)
+	fr.p.setCell(&m[0], fr.w.tt.BVC(32, 1))
 	return nil
 }
 
@@ -837,7 +837,7 @@ func extMutexUnlock(fr *frame, a []Value) Value {
 	if m[0].(*Term).C == 0 {
 		fr.p.fatal("sync: unlock of unlocked mutex")
 	}
-	m[0] = fr.w.tt.BVC(32, 0)
+	fr.p.setCell(&m[0], fr.w.tt.BVC(32, 0))
 	return nil
 }
 
@@ -847,7 +847,7 @@ func extMutexTryLock(fr *frame, a []Value) Value {
 	if m[0].(*Term).C != 0 {
 		return fr.w.tt.False
 	}
-	m[0] = fr.w.tt.BVC(32, 1)
+	fr.p.setCell(&m[0], fr.w.tt.BVC(32, 1))
 	return fr.w.tt.True
 }
 
@@ -859,7 +859,7 @@ func extRWLock(fr *frame, a []Value) Value {
 	m := rw[0].(Struct)
 	fr.p.yield("RWMutex.Lock")
 	fr.p.blockUntil(func() bool { return m[0].(*Term).C == 0 && rw[2].(*Term).C == 0 }, "RWMutex.Lock")
-	m[0] = fr.w.tt.BVC(32, 1)
+	fr.p.setCell(&m[0], fr.w.tt.BVC(32, 1))
 	return nil
 }
 
@@ -870,7 +870,7 @@ func extRWTryLock(fr *frame, a []Value) Value {
 	if m[0].(*Term).C != 0 || rw[2].(*Term).C != 0 {
 		return fr.w.tt.False
 	}
-	m[0] = fr.w.tt.BVC(32, 1)
+	fr.p.setCell(&m[0], fr.w.tt.BVC(32, 1))
 	return fr.w.tt.True
 }
 
@@ -881,7 +881,7 @@ func extRWUnlock(fr *frame, a []Value) Value {
 	if m[0].(*Term).C == 0 {
 		fr.p.fatal("sync: Unlock of unlocked RWMutex")
 	}
-	m[0] = fr.w.tt.BVC(32, 0)
+	fr.p.setCell(&m[0], fr.w.tt.BVC(32, 0))
 	return nil
 }
 
@@ -891,7 +891,7 @@ func extRWRLock(fr *frame, a []Value) Value {
 	m := rw[0].(Struct)
 	fr.p.yield("RWMutex.RLock")
 	fr.p.blockUntil(func() bool { return m[0].(*Term).C == 0 }, "RWMutex.RLock")
-	rw[2] = fr.w.tt.BVC(32, rw[2].(*Term).C+1)
+	fr.p.setCell(&rw[2], fr.w.tt.BVC(32, rw[2].(*Term).C+1))
 	return nil
 }
 
@@ -901,7 +901,7 @@ func extRWRUnlock(fr *frame, a []Value) Value {
 	if rw[2].(*Term).C == 0 {
 		fr.p.fatal("sync: RUnlock of unlocked RWMutex")
 	}
-	rw[2] = fr.w.tt.BVC(32, rw[2].(*Term).C-1)
+	fr.p.setCell(&rw[2], fr.w.tt.BVC(32, rw[2].(*Term).C-1))
 	return nil
 }
 
@@ -918,7 +918,7 @@ func extWGAdd(fr *frame, a []Value) Value {
 	if n < 0 {
 		panic(targetPanic{v: fr.w.newError(Str{S: "sync: negative WaitGroup counter"})})
 	}
-	*c = fr.w.tt.BVC(32, uint64(uint32(n)))
+	fr.p.setCell(c, fr.w.tt.BVC(32, uint64(uint32(n))))
 	return nil
 }
 
@@ -950,7 +950,7 @@ func extOnceDo(fr *frame, a []Value) Value {
 		return nil
 	}
 	// mark done after f returns (even if it panics), like the real implementation
-	defer func() { *cell = fr.w.tt.BVC(32, 1) }()
+	defer func() { fr.p.setCell(cell, fr.w.tt.BVC(32, 1)) }()
 	fr.w.call(fr, token.NoPos, a[1], nil)
 	return nil
 }
@@ -971,7 +971,7 @@ func extAtomicLoad(fr *frame, a []Value) Value {
 func extAtomicStore(fr *frame, a []Value) Value {
 	nilRecv(a[0], "atomic store")
 	fr.p.yieldAtomic(fr, "atomic.Store")
-	*a[0].(*Value) = a[1]
+	fr.p.setCell(a[0].(*Value), a[1])
 	return nil
 }
 
@@ -980,7 +980,7 @@ func extAtomicAdd(fr *frame, a []Value) Value {
 	fr.p.yieldAtomic(fr, "atomic.Add")
 	c := a[0].(*Value)
 	n := fr.w.tt.Add((*c).(*Term), a[1].(*Term))
-	*c = n
+	fr.p.setCell(c, n)
 	return n
 }
 
@@ -988,7 +988,7 @@ func extAtomicAnd(fr *frame, a []Value) Value {
 	fr.p.yieldAtomic(fr, "atomic.And")
 	c := a[0].(*Value)
 	old := (*c).(*Term)
-	*c = fr.w.tt.BAnd(old, a[1].(*Term))
+	fr.p.setCell(c, fr.w.tt.BAnd(old, a[1].(*Term)))
 	return old
 }
 
@@ -996,7 +996,7 @@ func extAtomicOr(fr *frame, a []Value) Value {
 	fr.p.yieldAtomic(fr, "atomic.Or")
 	c := a[0].(*Value)
 	old := (*c).(*Term)
-	*c = fr.w.tt.BOr(old, a[1].(*Term))
+	fr.p.setCell(c, fr.w.tt.BOr(old, a[1].(*Term)))
 	return old
 }
 
@@ -1004,7 +1004,7 @@ func extAtomicSwap(fr *frame, a []Value) Value {
 	fr.p.yieldAtomic(fr, "atomic.Swap")
 	c := a[0].(*Value)
 	old := *c
-	*c = a[1]
+	fr.p.setCell(c, a[1])
 	return old
 }
 
@@ -1013,7 +1013,7 @@ func extAtomicCAS(fr *frame, a []Value) Value {
 	c := a[0].(*Value)
 	eq := fr.w.tt.Eq((*c).(*Term), a[1].(*Term))
 	if fr.p.branch(eq) {
-		*c = a[2]
+		fr.p.setCell(c, a[2])
 		return fr.w.tt.True
 	}
 	return fr.w.tt.False
@@ -1023,7 +1023,7 @@ func extAtomicCASPtr(fr *frame, a []Value) Value {
 	fr.p.yieldAtomic(fr, "atomic.CAS")
 	c := a[0].(*Value)
 	if ptrIdent((*c).(UnsafePtr).P) == ptrIdent(a[1].(UnsafePtr).P) {
-		*c = a[2]
+		fr.p.setCell(c, a[2])
 		return fr.w.tt.True
 	}
 	return fr.w.tt.False
@@ -1041,7 +1041,7 @@ func extAtomicValueStore(fr *frame, a []Value) Value {
 	if v.T == nil {
 		panic(targetPanic{v: fr.w.newError(Str{S: "sync/atomic: store of nil value into Value"})})
 	}
-	structOf(a[0])[0] = v
+	fr.p.setCell(&structOf(a[0])[0], v)
 	return nil
 }
 
